@@ -2,6 +2,7 @@
 mod c01;
 mod c04;
 mod c0506;
+mod c13;
 mod dbops;
 mod storops;
 
@@ -13,6 +14,7 @@ fn main() {
         "C04" => c04::run(&args),
         "C05" => c0506::run_c05(&args),
         "C06" => c0506::run_c06(&args),
+        "C13" => c13::run(&args),
         other => engine::machinery_failure(&format!("core_checks: unknown property {other}")),
     };
     std::process::exit(code);
